@@ -19,3 +19,23 @@ package object
 //@ requires b != nil && obj != nil && ref(obj) != nil
 //@ ensures[C19.bytes.repeat.negative] typeof(obj) == *Int && obj.(*Int).value < 0 ==> typeof(result) == *Error
 //@ ensures[C19.bytes.repeat.type] !oneof(typeof(obj), *Int, *Byte) ==> typeof(result) == *Error
+
+// ---- C19: contains_rune / index_rune take one character, of any width ----------------------------------------------
+// bytes.ContainsRune and bytes.IndexRune are defined for every rune, so the wrappers must accept every argument that
+// is one code point long (KF-72 fixed: they required one BYTE and rejected "é"). The value itself is Go's
+// ([]byte arguments are outside the engine's pure-function model: the result of the bytes call is unconstrained).
+//@ func (*ByteSlice).ContainsRune
+//@ props C19
+//@ safety
+//@ assume[recv.nonnil] b != nil
+//@ assume[args.wf] obj != nil && ref(obj) != nil
+//@ ensures[C19.bytes.containsrune.accepts] typeof(obj) == *String && runecount(obj.(*String).value) == 1 ==> typeof(result) == *Bool
+//@ ensures[C19.bytes.containsrune.rejects] typeof(obj) == *String && runecount(obj.(*String).value) != 1 ==> typeof(result) == *Error
+
+//@ func (*ByteSlice).IndexRune
+//@ props C19
+//@ safety
+//@ assume[recv.nonnil] b != nil
+//@ assume[args.wf] obj != nil && ref(obj) != nil
+//@ ensures[C19.bytes.indexrune.accepts] typeof(obj) == *String && runecount(obj.(*String).value) == 1 ==> typeof(result) == *Int
+//@ ensures[C19.bytes.indexrune.rejects] typeof(obj) == *String && runecount(obj.(*String).value) != 1 ==> typeof(result) == *Error
